@@ -49,11 +49,12 @@ fn expect_err(kinds: &[u8]) -> bool {
     }
     open != 0
 }
-fn check_seq<S: Src, const L: usize>(s: &mut S, fixed_first: Option<u8>) {
-    // exactly L tokens; token kinds are symbolic (except an optionally fixed first one)
+fn check_seq<S: Src, const L: usize>(s: &mut S, fixed: &[u8]) {
+    // exactly L tokens; the kinds of the first `fixed.len()` tokens are concrete, the others symbolic
+    // (cost grows ~50x per symbolic token kind: 1 symbolic = 5 s, 2 = 250 s, 3 = no result in 50 min)
     let mut kinds = [0u8; L];
     for (i, k) in kinds.iter_mut().enumerate() {
-        *k = match (i, fixed_first) { (0, Some(f)) => f, _ => s.choice(7) };
+        *k = if i < fixed.len() { fixed[i] } else { s.choice(7) };
     }
     let toks: [ParsedToken<'static, i32>; L] = core::array::from_fn(|i| mk_tok(s, kinds[i]));
     let r = check_parsed_token_preconditions(&toks);
@@ -65,17 +66,23 @@ fn check_seq<S: Src, const L: usize>(s: &mut S, fixed_first: Option<u8>) {
     core::mem::forget((r, toks));
 }
 
-harness!(preconditions_len_0, unwind = 10, |s| { check_seq::<S, 0>(s, None) });
-harness!(preconditions_len_1, unwind = 10, |s| { check_seq::<S, 1>(s, None) });
-harness!(preconditions_len_2, unwind = 10, |s| { check_seq::<S, 2>(s, None) });
-// length 3: the first token kind is fixed per harness so the work spreads over the cores
-harness!(preconditions_len_3_a0, unwind = 10, |s| { check_seq::<S, 3>(s, Some(0)) });
-harness!(preconditions_len_3_a1, unwind = 10, |s| { check_seq::<S, 3>(s, Some(1)) });
-harness!(preconditions_len_3_a2, unwind = 10, |s| { check_seq::<S, 3>(s, Some(2)) });
-harness!(preconditions_len_3_a3, unwind = 10, |s| { check_seq::<S, 3>(s, Some(3)) });
-harness!(preconditions_len_3_a4, unwind = 10, |s| { check_seq::<S, 3>(s, Some(4)) });
-harness!(preconditions_len_3_a5, unwind = 10, |s| { check_seq::<S, 3>(s, Some(5)) });
-harness!(preconditions_len_3_a6, unwind = 10, |s| { check_seq::<S, 3>(s, Some(6)) });
+harness!(preconditions_len_0, unwind = 10, |s| { check_seq::<S, 0>(s, &[]) });
+harness!(preconditions_len_1, unwind = 10, |s| { check_seq::<S, 1>(s, &[]) });
+harness!(preconditions_len_2, unwind = 10, |s| { check_seq::<S, 2>(s, &[]) });
+// length 3: the first two token kinds are fixed per harness (49 harnesses), the third is symbolic
+macro_rules! len3 { ($($name:ident = [$a:expr, $b:expr]),* $(,)?) => { $( harness!($name, unwind = 10, |s| { check_seq::<S, 3>(s, &[$a, $b]) }); )* } }
+len3!(l3_00 = [0, 0], l3_01 = [0, 1], l3_02 = [0, 2], l3_03 = [0, 3], l3_04 = [0, 4], l3_05 = [0, 5], l3_06 = [0, 6],
+      l3_10 = [1, 0], l3_11 = [1, 1], l3_12 = [1, 2], l3_13 = [1, 3], l3_14 = [1, 4], l3_15 = [1, 5], l3_16 = [1, 6],
+      l3_20 = [2, 0], l3_21 = [2, 1], l3_22 = [2, 2], l3_23 = [2, 3], l3_24 = [2, 4], l3_25 = [2, 5], l3_26 = [2, 6],
+      l3_30 = [3, 0], l3_31 = [3, 1], l3_32 = [3, 2], l3_33 = [3, 3], l3_34 = [3, 4], l3_35 = [3, 5], l3_36 = [3, 6],
+      l3_40 = [4, 0], l3_41 = [4, 1], l3_42 = [4, 2], l3_43 = [4, 3], l3_44 = [4, 4], l3_45 = [4, 5], l3_46 = [4, 6],
+      l3_50 = [5, 0], l3_51 = [5, 1], l3_52 = [5, 2], l3_53 = [5, 3], l3_54 = [5, 4], l3_55 = [5, 5], l3_56 = [5, 6],
+      l3_60 = [6, 0], l3_61 = [6, 1], l3_62 = [6, 2], l3_63 = [6, 3], l3_64 = [6, 4], l3_65 = [6, 5], l3_66 = [6, 6]);
+// native-only sampled probe: 8 tokens, all kinds drawn
+pub fn preconditions_len_8<S: Src>(s: &mut S) { check_seq::<S, 8>(s, &[]) }
 
-registry!("c07", preconditions_len_0, preconditions_len_1, preconditions_len_2, preconditions_len_3_a0, preconditions_len_3_a1, preconditions_len_3_a2,
-    preconditions_len_3_a3, preconditions_len_3_a4, preconditions_len_3_a5, preconditions_len_3_a6);
+registry!("c07", preconditions_len_8, preconditions_len_0, preconditions_len_1, preconditions_len_2,
+    l3_00, l3_01, l3_02, l3_03, l3_04, l3_05, l3_06, l3_10, l3_11, l3_12, l3_13, l3_14, l3_15, l3_16,
+    l3_20, l3_21, l3_22, l3_23, l3_24, l3_25, l3_26, l3_30, l3_31, l3_32, l3_33, l3_34, l3_35, l3_36,
+    l3_40, l3_41, l3_42, l3_43, l3_44, l3_45, l3_46, l3_50, l3_51, l3_52, l3_53, l3_54, l3_55, l3_56,
+    l3_60, l3_61, l3_62, l3_63, l3_64, l3_65, l3_66);
